@@ -209,9 +209,16 @@ class RowFlow:
     # -------------------------------------------------------------- guards
     def atoms_for(self, guards: List[Tuple[ast.AST, bool]], elem_names: Set[str]) -> List[Atom]:
         out: List[Atom] = []
-        for cond, pol in guards:
-            for c, p in split_cond(cond, pol):
-                out.append(self._atom(c, p, elem_names))
+        work = [(c, p, 0) for cond, pol in guards for c, p in split_cond(cond, pol)]
+        while work:
+            c, p, d = work.pop(0)
+            # a local boolean that names a condition: look through it
+            if isinstance(c, ast.Name) and d < 3:
+                defs = [n for n in own_nodes(self.func.node) if isinstance(n, ast.Assign) and len(n.targets) == 1 and isinstance(n.targets[0], ast.Name) and n.targets[0].id == c.id]
+                if len(defs) == 1 and isinstance(defs[0].value, (ast.BoolOp, ast.Compare, ast.UnaryOp)):
+                    work = [(c2, p2, d + 1) for c2, p2 in split_cond(defs[0].value, p)] + work
+                    continue
+            out.append(self._atom(c, p, elem_names))
         return out
 
     def _row_key(self, e: ast.AST, elem_names: Set[str]) -> Optional[ValSet]:
